@@ -220,6 +220,27 @@ impl Flounder {
     }
 }
 
+/// Verification hooks (compiled only with `--cfg flounder_verif`)
+#[cfg(flounder_verif)]
+impl Flounder {
+    pub fn verif_handle_command(&mut self, command: &str) {
+        self.handle_command(command);
+    }
+    pub fn verif_board(&self) -> &Board {
+        &self.board
+    }
+    pub fn verif_searcher(&mut self) -> &mut Searcher {
+        &mut self.searcher
+    }
+    pub fn verif_go_budget(&self, command: &str) -> Option<Duration> {
+        let parts: Vec<&str> = command.split_whitespace().collect();
+        let idx = parts
+            .iter()
+            .position(|&x| x == "wtime" || x == "btime" || x == "winc" || x == "binc")?;
+        self.calculate_move_time(&parts, idx)
+    }
+}
+
 impl Default for Flounder {
     fn default() -> Self {
         Self::new()
